@@ -394,7 +394,16 @@ class C17(Prop):
     def relevant(self, line, impl, model):
         return kind_of(line) in ('build', 'chunk', 'item')
     def proj(self, line, obs):
-        return (tuple((r, canon_fir_bytes(line, b) if b is not None else None) for r, b in writes_of(obs.get('writes'))),)
+        # FIR entries are compared up to order inside the n bytes written (HashMap iteration order is random);
+        # the rest of the buffer is compared as is
+        def canon(r, b):
+            if b is None:
+                return None
+            n = size_n(r)
+            if n is None or n > len(b):
+                return b
+            return canon_fir_bytes(line, b[:n]) + b[n:]
+        return (tuple((r, canon(r, b)) for r, b in writes_of(obs.get('writes'))),)
     def oracle(self, line, impl, model):
         fails = []
         ws = writes_of(impl.get('writes'))
